@@ -510,6 +510,13 @@ def judge_graph(c):
     ss = spec.get("status")
     if impl["status"] == "panic":
         verdict, what = "violates", "Run panics: " + impl.get("msg", "")[:100]
+    elif c.get("stream") == "unknown-op":
+        # C18: an operator type outside the opset makes Run fail with the unsupported-operator error,
+        # even when no declared output depends on that node (it is neither skipped nor substituted)
+        if impl["status"] == "error" and impl.get("errkind") == "unsupportedOp":
+            verdict = "holds"
+        else:
+            verdict, what = "violates", f"graph with an unknown operator type: Run gives {impl['status']}/{impl.get('errkind')}"
     elif impl["status"] == "ok" and any(o is None for o in impl.get("outs") or []):
         verdict, what = "violates", "a declared output is missing / nil in the result without an error"
     elif impl["status"] == "ok" and isinstance(impl.get("extra"), str):
@@ -585,3 +592,33 @@ def judge(c):
     if c.get("prop") == "C02" and c.get("kind") in ("op", "bcast"):
         return judge_purity(c)
     return _judge_plain(c)
+
+
+def judge_load(c):
+    """C18: NewModelFromBytes returns a model or an error, never panics; opset rule via the model"""
+    impl, model = c["impl"], c.get("model") or {}
+    ms = model.get("status")
+    corr = "skip"
+    if ms in ("ok", "error"):
+        corr = "agree" if impl["status"] == ms and (ms != "error" or model.get("errkind") != "unsupportedOpset" or impl.get("errkind") == "unsupportedOpset") else "disagree"
+        if ms == "ok" and impl["status"] == "ok" and (impl.get("extra") or {}).get("n_params") != model.get("n_params"):
+            # duplicate initializer names collapse in the Go map; only count mismatches beyond that are a disagreement
+            if (impl.get("extra") or {}).get("n_params", 0) > model.get("n_params", 0):
+                corr = "disagree"
+    verdict, what = "holds", ""
+    if impl["status"] == "panic":
+        verdict, what = "violates", "loading panics: " + impl.get("msg", "")[:100]
+    elif c["p"].get("unmarshal") == "error" and impl["status"] != "error":
+        verdict, what = "violates", "bytes that are not a protobuf message were loaded"
+    elif ms == "error" and model.get("errkind") == "unsupportedOpset" and not (impl["status"] == "error" and impl.get("errkind") == "unsupportedOpset"):
+        verdict, what = "violates", f"highest imported opset is not implemented but loading gives {impl['status']}/{impl.get('errkind')}"
+    elif ms == "ok" and impl["status"] != "ok":
+        verdict, what = "violates", f"loadable model refused: {impl.get('msg','')[:100]}"
+    tag = None
+    if verdict == "violates":
+        tag = "load." + (c.get("stream") or "").split(":")[0] + "." + impl["status"]
+    key = ("load", (c.get("stream") or "").split(":")[0], c["p"].get("unmarshal"), impl["status"], impl.get("errkind"))
+    return J(corr=corr, verdict=verdict, tag=tag, what=what, key=key)
+
+
+JUDGES["load"] = judge_load
